@@ -8,6 +8,7 @@ import (
 	"encoding/hex"
 	"encoding/json"
 	"fmt"
+	"hash/fnv"
 	"sort"
 	"strings"
 	"sync"
@@ -396,12 +397,14 @@ func schedSample(c *ConcCase, steps []vlib.SchedStep) any {
 	return map[string]any{"scenario": c.Name, "storage": c.Storage, "requests": c.Reqs, "plant": c.Plant, "schedule": order}
 }
 
-func exploreAll(t *testing.T, st *vlib.Stats, part string, scens []*ConcCase, shard, nshards int) {
-	cell := 0
+func exploreAll(t *testing.T, st *vlib.Stats, part string, scens []*ConcCase, shard, nshards int, subshard bool) {
+	const subDepth = 5
+	cell, skipped := 0, 0
+	defer func() { st.Count("foreign-subtrees-skipped", skipped) }()
 	for _, base := range scens {
 		for _, storage := range []string{"mem", "sql"} {
 			cell++
-			if cell%nshards != shard {
+			if !subshard && cell%nshards != shard {
 				continue
 			}
 			c := *base
@@ -411,6 +414,29 @@ func exploreAll(t *testing.T, st *vlib.Stats, part string, scens []*ConcCase, sh
 			n := 0
 			for {
 				res, steps, err := runSchedule(&c, choices, cache)
+				// Work unit = (cell, first subDepth choices): the DFS subtree below a
+				// prefix owned by another shard is skipped after its first schedule.
+				mine := true
+				if subshard {
+					pre := steps
+					if len(pre) > subDepth {
+						pre = pre[:subDepth]
+					}
+					h := fnv.New32a()
+					fmt.Fprintf(h, "%s/%s", c.Name, storage)
+					for _, s := range pre {
+						fmt.Fprintf(h, ",%d", s.Chosen)
+					}
+					mine = int(h.Sum32()%uint32(nshards)) == shard
+					if !mine && err == nil {
+						skipped++
+						choices = vlib.NextChoices(pre)
+						if choices == nil {
+							break
+						}
+						continue
+					}
+				}
 				n++
 				st.Record(schedKey(&c, steps), res.Window || res.Waited, []string{c.Name + "/" + storage}, schedSample(&c, steps))
 				if err != nil {
@@ -434,14 +460,14 @@ func exploreAll(t *testing.T, st *vlib.Stats, part string, scens []*ConcCase, sh
 func TestC05Two(t *testing.T) {
 	st := vlib.StatsFor("C05", "two", "exhaustive: ALL interleavings of every 2-request scenario on both stores; "+ruleC05)
 	shard, nshards := vlib.Shard()
-	exploreAll(t, st, "two", scenarios(2), shard, nshards)
+	exploreAll(t, st, "two", scenarios(2), shard, nshards, false)
 	st.SetExhaustive(true)
 }
 
 func TestC05Three(t *testing.T) {
 	st := vlib.StatsFor("C05", "three", "exhaustive: ALL interleavings of every 3-request scenario on both stores; "+ruleC05)
 	shard, nshards := vlib.Shard()
-	exploreAll(t, st, "three", scenarios(3), shard, nshards)
+	exploreAll(t, st, "three", scenarios(3), shard, nshards, true)
 	st.SetExhaustive(true)
 }
 
@@ -518,7 +544,7 @@ func TestC05Stress(t *testing.T) {
 	st := vlib.StatsFor("C05", "stress", "8-32 goroutines x 20 requests each on one log (growth from what they last read, forks from the same size, refreshes, reads) without the scheduler, both stores, built with -race: all accepted checkpoints form one prefix chain, the final state is the largest accepted one, no goroutine sees the size go down, every value read was accepted; non-trivial = run in which >=2 goroutines had an update accepted")
 	rounds := 24
 	if vlib.Thorough() {
-		rounds = 400
+		rounds = 240
 	}
 	for round := 0; round < rounds; round++ {
 		for _, storage := range []string{"mem", "sql"} {
